@@ -239,14 +239,17 @@ func viaDecoder(ps []vh.IDPolicy, em types.EntityGetter, req cedar.Request, env 
 			return "decoder yielded more policies than the document holds"
 		}
 		pp := p
-		got = append(got, vh.IDPolicy{ID: ps[i].ID, AST: ps[i].AST, P: &pp})
+		// the specification is computed over the DECODED policy's own AST: whether text rendering preserves
+		// meaning is C08's question (e.g. an IPv4-mapped ip literal renders a form the evaluator rejects:
+		// known finding there), not C02's
+		got = append(got, vh.IDPolicy{ID: ps[i].ID, AST: (*ast.Policy)(pp.AST()), P: &pp})
 	}
 	if len(got) != len(ps) {
 		return ""
 	}
 	d, diag := cedar.Authorize(vh.SliceIter(got), em, req)
 	have := stripPos(vh.ShowAuthz(d, diag))
-	want := stripPos(vh.SpecAuthz(ps, env))
+	want := stripPos(vh.SpecAuthz(got, env))
 	if have != want {
 		return fmt.Sprintf("policies decoded from their own text through cedar.NewDecoder authorize as %q, the property says %q", have, want)
 	}
